@@ -96,9 +96,16 @@ class Instance:
                 tuple(int(v) for v in self.rec["c"]), tuple(self.xs))
 
 
-def make_disciplines(inst: Instance, log=None):
-    """One gemseo Discipline per block row: y_i = c_i + xc_i * x + sum_j B_ij y_j (1-based names)."""
+def make_disciplines(inst: Instance, log=None, split=False):
+    """One gemseo Discipline per block row: y_i = c_i + xc_i * x + sum_j B_ij y_j (1-based names).
+
+    split: the same system with ONE VARIABLE PER COMPONENT (y<i>_<k>); a discipline then reads exactly the
+    components its rows depend on, so that a component may be a coupling read by its own discipline only
+    (a private self-coupling inside a larger group) or by nobody - the naming is not part of the system."""
     from gemseo.core.discipline import Discipline
+
+    if split:
+        return _make_split(inst, Discipline)
 
     class Lin(Discipline):
         def __init__(self, i):
@@ -138,14 +145,71 @@ def make_disciplines(inst: Instance, log=None):
     return [Lin(i) for i in range(inst.nd)]
 
 
-def coupling_vector(inst: Instance, data):
+def comp_name(inst: Instance, c):
+    """name of the flat component c (0-based) in the split naming"""
+    i = max(k for k in range(inst.nd) if inst.off[k] <= c)
+    return f"y{i + 1}_{c - inst.off[i] + 1}"
+
+
+def private_self_couplings(inst: Instance):
+    """flat components read by their own discipline only, in a discipline that belongs to a larger group of
+    mutually dependent disciplines (instances on which the split naming is worth replaying)"""
+    out = []
+    for i in range(inst.nd):
+        others = [j for j in range(inst.nd) if j != i]
+        in_loop = any(i in inst.reads(j) for j in others) and any(j in inst.reads(i) for j in others)
+        for c in range(inst.off[i], inst.off[i + 1]):
+            own = bool(np.any(inst.B[inst.sl(i), c] != 0))
+            foreign = any(np.any(inst.B[inst.sl(j), c] != 0) for j in others)
+            if in_loop and own and not foreign:
+                out.append(c)
+    return out
+
+
+def _make_split(inst: Instance, Discipline):
+    class LinS(Discipline):
+        def __init__(self, i):
+            super().__init__(f"D{i + 1}")
+            self.i = i
+            self.rows = list(range(inst.off[i], inst.off[i + 1]))
+            self.outs = [comp_name(inst, r) for r in self.rows]
+            self.cols = [c for c in range(inst.dim) if np.any(inst.B[inst.sl(i), c] != 0)]
+            self.ins = ["x"] + [comp_name(inst, c) for c in self.cols]
+            self.input_grammar.update_from_names(self.ins)
+            self.output_grammar.update_from_names(self.outs)
+            d = {"x": np.zeros(1)}
+            for c in self.cols:
+                d[comp_name(inst, c)] = inst.y0[c:c + 1].copy()
+            self.default_input_data = d
+
+        def _run(self, input_data):
+            x = np.asarray(input_data["x"], dtype=float)
+            o = inst.c[inst.sl(self.i)] + inst.xc[inst.sl(self.i)] * x[0]
+            for c in self.cols:
+                o = o + inst.B[inst.sl(self.i), c] * np.asarray(input_data[comp_name(inst, c)], dtype=float)[0]
+            return {n: o[k:k + 1] for k, n in enumerate(self.outs)}
+
+        def _compute_jacobian(self, input_names=(), output_names=()):
+            self.jac = {}
+            for k, n in enumerate(self.outs):
+                r = self.rows[k]
+                self.jac[n] = {"x": inst.xc[r:r + 1].reshape(1, 1).copy()}
+                for c in self.cols:
+                    self.jac[n][comp_name(inst, c)] = inst.B[r:r + 1, c:c + 1].copy()
+
+    return [LinS(i) for i in range(inst.nd)]
+
+
+def coupling_vector(inst: Instance, data, split=False):
+    if split:
+        return np.array([np.asarray(data[comp_name(inst, c)], dtype=complex).real[0] for c in range(inst.dim)])
     return np.concatenate([np.atleast_1d(np.asarray(data[f"y{i + 1}"], dtype=complex).real) for i in range(inst.nd)])
 
 
-def reexecution_residual(inst: Instance, data, x):
+def reexecution_residual(inst: Instance, data, x, split=False):
     """Each harness discipline re-executed on the returned data: (its outputs) - (the returned outputs)."""
     ds = make_disciplines(inst)
-    z = coupling_vector(inst, data)
+    z = coupling_vector(inst, data, split)
     full = {"x": np.array([float(x)])}
     for i in range(inst.nd):
         full[f"y{i + 1}"] = z[inst.sl(i)].copy()
